@@ -73,9 +73,23 @@ Inductive atom := AStr (s : string) | AKV (k : string) (z : Z) | ANum (z : Z) | 
 Inductive answer := AnsOk (l : list atom) | AnsErr.
 Inductive spec := SameAsModel | Spec (a : answer) | AnyAnswer.
 
+(** header damage done through the HDF5 C API on the closed file *)
+Inductive hdefect :=
+| DNoFormat | DFormat (s : string)       (* format attribute deleted / set to that string *)
+| DNoVersion | DVersion (v : list Z)     (* version attribute deleted / set to that vector *)
+| DNoId.
+Definition damage (h : header) (d : hdefect) : header :=
+  match d with
+  | DNoFormat => {| h_format := None; h_version := h_version h; h_id := h_id h |}
+  | DFormat s => {| h_format := Some s; h_version := h_version h; h_id := h_id h |}
+  | DNoVersion => {| h_format := h_format h; h_version := None; h_id := h_id h |}
+  | DVersion v => {| h_format := h_format h; h_version := Some v; h_id := h_id h |}
+  | DNoId => {| h_format := h_format h; h_version := h_version h; h_id := None |}
+  end.
+
 Inductive cmd :=
 | CFs (variant : string)
-| CHdr (defect : string)
+| CHdr (name : string) (d : hdefect)
 | COpen (mode : FileMode) (comp : Compression) (force : bool)
 | CContent (name : string) (op : top)
 | CDump | CSnap | CCmp | CSha0 | CShaQ
@@ -102,13 +116,6 @@ Definition prior_of (variant : string) : option (option (fcontent tree)) :=
   else if String.eqb variant "empty" then Some (Some EmptyFile)
   else if String.eqb variant "plainh5" then Some (Some (H5 (mkH5 tree blank_header false false false false empty_tree)))
   else if String.eqb variant "lib" then Some (Some (H5 (mkH5 tree lib_header true true true true empty_tree)))
-  else None.
-
-Definition damage (h : header) (defect : string) : option header :=
-  if String.eqb defect "noformat" then Some {| h_format := None; h_version := h_version h; h_id := h_id h |}
-  else if String.eqb defect "badformat" then Some {| h_format := Some "xin"; h_version := h_version h; h_id := h_id h |}
-  else if String.eqb defect "noversion" then Some {| h_format := h_format h; h_version := None; h_id := h_id h |}
-  else if String.eqb defect "noid" then Some {| h_format := h_format h; h_version := h_version h; h_id := None |}
   else None.
 
 (** equality of what a path holds (content level: the model's notion of "the same bytes") *)
@@ -195,16 +202,12 @@ Definition sstep (st : sstate) (c : cmd) : sstate * answer * spec :=
            AnsOk [AStr v], SameAsModel)
       | None => (st, AnsErr, SameAsModel)
       end
-  | CHdr d =>
+  | CHdr name d =>
       match x_fs st the_path with
       | Some (H5 f) =>
-          match damage (f_hdr _ f) d with
-          | Some h' =>
-              (mkS (upd tree (x_fs st) the_path (H5 (mkH5 tree h' (f_meta _ f) (f_data _ f) (f_cat _ f) (f_uat _ f) (f_tree _ f))))
-                   (x_sess st) (x_h st) (x_held st) (x_snap st) true (x_sha st) true (x_points st),
-               AnsOk [AStr d], SameAsModel)
-          | None => (st, AnsErr, SameAsModel)
-          end
+          (mkS (upd tree (x_fs st) the_path (H5 (mkH5 tree (damage (f_hdr _ f) d) (f_meta _ f) (f_data _ f) (f_cat _ f) (f_uat _ f) (f_tree _ f))))
+               (x_sess st) (x_h st) (x_held st) (x_snap st) true (x_sha st) true (x_points st),
+           AnsOk [AStr name], SameAsModel)
       | _ => (st, AnsErr, SameAsModel)
       end
   | COpen mode comp force =>
